@@ -243,6 +243,28 @@ def t_existence():
     return stats
 
 
+def t_regex():
+    """match = whole string, search = substring, on subjects with line feeds at either end (no `.` vs CR disagreement involved)"""
+    stats = Stats()
+    subjects = ["ab", "ab\n", "\nab", "a\nb", "abc", "", "\n", "ab\n\n", "xab", "AB", "a", "b", 1, None, ["ab"]]
+    patterns = ["ab", "a.b", "ab?", "(ab)", "a|ab", "", "a*b*", "[a-b]+", "ab\n", "a{1,2}b", "(a|b)(a|b)", "(", "[a"]
+    n = 0
+    doc = [{"s": x} for x in subjects] + [{"s": "ab", "p": "ab"}, {"s": "ab\n", "p": "ab"}, {"s": "ab", "p": "a."}, {"s": "ab", "p": 1}]
+    for fn in ("match", "search"):
+        for pat in patterns:
+            for e in (["call", fn, [["q", "@", [["c", [["n", "s"]]]]], ["lit", pat]]],
+                      ["not", ["call", fn, [["q", "@", [["c", [["n", "s"]]]]], ["lit", pat]]]],
+                      ["call", fn, [["q", "@", [["c", [["n", "s"]]]]], ["q", "@", [["c", [["n", "p"]]]]]]]):
+                ast = ["q", "$", [["c", [["f", e]]]]]
+                text = Renderer(None).query(ast, top=True)
+                judge(stats, ast, doc, text, "regex")
+                n += 1
+            stats.nt("regex", fn, pat)
+    stats.subspaces.append({"name": "match/search x 13 patterns x 15 subjects (incl. leading/trailing line feeds, non-strings) x {test, negated, pattern from the document}",
+                            "size": n, "exhaustive": True})
+    return stats
+
+
 def t_nesting():
     """`$` is the query argument and `@` the candidate at every nesting depth."""
     stats = Stats()
@@ -280,6 +302,7 @@ def tasks(tier, seed):
         ts.append({"name": "table-%d" % k, "fn": "t_table", "kw": {"rows": rows[k::11]}})
     ts.append({"name": "existence", "fn": "t_existence"})
     ts.append({"name": "nesting", "fn": "t_nesting"})
+    ts.append({"name": "regex", "fn": "t_regex"})
     n = 1500 if tier == "quick" else 25000
     depth = 3 if tier == "quick" else 4
     for k in range(16):
